@@ -78,7 +78,7 @@ static void judge_text(const char *what, const cJSON *t, int fmt, const char *go
         al_window(0);
         back = cJSON_Parse(got);
         if (!back) { viol("C04", "%s: printed text does not parse back: %s", what, got); return; }
-        if (!roundtrip_equal(t, back, why, sizeof(why))) viol("C04", "%s: print then parse changes the value (%s): %s", what, why, got);
+        if (!roundtrip_equal(t, back, why, sizeof(why))) viol("C04 C05", "%s: print then parse changes the value (%s): %s", what, why, got);      /* C05: the text decodes to another value */
         again = fmt ? cJSON_Print(back) : cJSON_PrintUnformatted(back);
         if (!again || strcmp(again, got) != 0) viol("C04", "%s: printing the re-parsed tree gives different text: %s vs %s", what, got, again ? again : "(null)");
         cJSON_free(again); cJSON_Delete(back);
